@@ -329,7 +329,11 @@ fn solo_src<D: Subject>(src: &str) -> Option<String> {
 
 /// one scenario: a sequence of steps over named sources; `b k` builds source k, `r k` runs the latest build of k
 fn scenario<D: Subject>(srcs: &[&str], steps: &[(char, usize)], solos: &[String]) -> Result<(), (String, usize)> {
-    let mut d = D::fresh(Host::none());
+    scenario_in::<D>(srcs, steps, solos, false)
+}
+
+fn scenario_in<D: Subject>(srcs: &[&str], steps: &[(char, usize)], solos: &[String], tight: bool) -> Result<(), (String, usize)> {
+    let mut d = if tight { D::fresh_tight(Host::none()) } else { D::fresh(Host::none()) };
     let mut built: Vec<Built> = vec![];
     for (n, (what, k)) in steps.iter().enumerate() {
         let fail = |m: String| (m, n);
@@ -420,6 +424,19 @@ fn gen_fail<D: Subject>(src: &str, only: Option<&str>, cx: Option<&mut Ctx>) -> 
         if let Err((kind, at)) = r {
             out = Some((kind, name.to_string(), at, solos[2].clone()));
             break;
+        }
+        // the first scenario once more in an object whose storage blocks are tiny and of different sizes
+        if *name == "preludes-then-program" && D::NAME == "basic" {
+            n += 1;
+            tr += steps.len() as u64;
+            let r = match guard(|| scenario_in::<D>(&srcs, steps, &solos, true)) {
+                Ok(r) => r,
+                Err(p) => Err((format!("panic[{}]", crate::fw::panic_kind(&p)), 0)),
+            };
+            if let Err((kind, at)) = r {
+                out = Some((format!("tight-storage/{}", kind), name.to_string(), at, solos[2].clone()));
+                break;
+            }
         }
     }
     if let Some(cx) = cx {
